@@ -232,6 +232,8 @@ def run_script(cs, keep_dir=None):
                 if st["usage"] is not None:
                     _load_usage(st["usage"], a[2])
                 st["phase"] = "step"
+            elif k == "setattr":
+                setattr(st["conns"][a[1]], a[2], a[3])
             elif k == "prune":
                 try:
                     st["server"].prune_all_apps(a[1], a[2])
